@@ -102,6 +102,9 @@ OpStep ==
                 THEN <<V(i, "C05", "PROTO is not the leading PROTO <P>")>> ELSE <<>>)
             \o (IF lx.known /\ lx.op = B_FRAME /\ (c.P < 4 \/ acc.n # 1 \/ acc.frames # 0)
                 THEN <<V(i, "C06", "FRAME not unique / not directly after PROTO / protocol < 4")>> ELSE <<>>)
+            \* FRAME is never a body choice (Guard) nor a collapse opcode: beyond the header it is an opcode C11 does not allow
+            \o (IF lx.known /\ lx.op = B_FRAME /\ acc.n > 1
+                THEN <<V(i, "C11", "FRAME opcode beyond the header: neither a body choice, nor collapse tail, nor STOP")>> ELSE <<>>)
             \o (IF lx.known /\ lx.ok /\ lx.op = B_FRAME /\ lx.arg # Len(b) - (lx.nxt - 1)
                 THEN <<V(i, "C06", "FRAME length differs from the number of bytes that follow")>> ELSE <<>>)
             \o (IF lx.known /\ lx.ok /\ lx.op = B_STOP /\ lx.nxt # Len(b) + 1 THEN <<V(i, "C04", "bytes after STOP")>> ELSE <<>>)
